@@ -117,4 +117,35 @@ Proof. intros HX HY HP Hd Z HZ HZp.
   rewrite Hd in A. specialize (A (k_refl F 0) HZp).
   replace (dist2 F k Y X + dist2 F k X Z - (0 + 0) - (0 * mtrace k Z + 0 * mtrace k Z)) with (dist2 F k Y X + dist2 F k X Z) in A by ring.
   exact A. Qed.
+(* a PSD input is left unchanged by any output that passes the exact certificate *)
+Lemma dist2_sym k (X Y : rmat) : dist2 F k X Y = dist2 F k Y X.
+Proof. unfold dist2, Mat.inner, msub. apply sumn_ext; intros i _. apply sumn_ext; intros j _. ring. Qed.
+Lemma dist2_refl k (X : rmat) : dist2 F k X X = 0.
+Proof. unfold dist2, Mat.inner, msub. apply sumn_zero'. intros i _. apply sumn_zero'. intros j _. ring. Qed.
+Lemma nonneg_double_zero a : 0 <= a -> a + a <= 0 -> a = 0.
+Proof. intros Ha Hd. apply (k_antisym F); [|exact Ha].
+  apply (k_trans F _ (a + a)); [|exact Hd].
+  apply (proj2 (le_sub F a (a + a))). replace (a + a - a) with a by ring. exact Ha. Qed.
+Lemma sumn_nonneg_zero k (f : nat -> F) : (forall i, (i < k)%nat -> 0 <= f i) -> sumn k f = 0 -> forall i, (i < k)%nat -> f i = 0.
+Proof. induction k as [|k IH]; intros Hf E i Hi; [lia|]. cbn [sumn] in E.
+  assert (A : 0 <= sumn k f) by (apply sumn_nonneg; intros; apply Hf; lia).
+  assert (C : 0 <= f k) by (apply Hf; lia).
+  assert (E1 : sumn k f = 0).
+  { apply (k_antisym F); [|exact A]. replace (sumn k f) with (0 - f k) by (rewrite <- E; ring).
+    apply (proj2 (le_sub F (0 - f k) 0)). replace (0 - (0 - f k)) with (f k) by ring. exact C. }
+  destruct (Nat.eq_dec i k) as [->|Hne].
+  - rewrite E1 in E. rewrite <- E. ring.
+  - apply IH; [intros; apply Hf; lia|exact E1|lia]. Qed.
+Lemma dist2_zero_meq k (X Y : rmat) : dist2 F k X Y = 0 -> meq k k X Y.
+Proof. intros E i j Hi Hj. unfold dist2, Mat.inner in E.
+  pose proof (sumn_nonneg_zero k _ (fun a _ => sumn_nonneg F k _ (fun b _ => sqr_nonneg F (msub X Y a b))) E i Hi) as E1.
+  cbv beta in E1.
+  pose proof (sumn_nonneg_zero k _ (fun b _ => sqr_nonneg F (msub X Y i b)) E1 j Hj) as E2. cbv beta in E2.
+  assert (E3 : msub X Y i j = 0) by (apply (sum_sqr_zero F _ 0); rewrite E2; ring).
+  unfold msub in E3. replace (X i j) with (X i j - Y i j + Y i j) by ring. rewrite E3. ring. Qed.
+Theorem psd_proj_fixes_psd k (X Y : rmat) :
+  symmetric F k X -> symmetric F k Y -> PSD F k (msub X Y) -> inner k (msub X Y) X = 0 -> PSD F k Y -> meq k k X Y.
+Proof. intros HX HY HP Hd HYp. pose proof (psd_proj_exact k X Y HX HY HP Hd Y HY HYp) as A.
+  rewrite dist2_refl, (dist2_sym k Y X) in A.
+  apply dist2_zero_meq. apply nonneg_double_zero; [apply dist2_nonneg|exact A]. Qed.
 End Verdict.
